@@ -110,7 +110,7 @@ def tlc(
     """
     os.makedirs(OUT, exist_ok=True)
     meta = tempfile.mkdtemp(prefix=f"tlc-{tag or module}-", dir=OUT)
-    cmd = ["java", "-XX:+UseParallelGC", f"-Xmx{heap}"]
+    cmd = ["java", "-XX:+UseParallelGC", f"-Xmx{heap}", "-Xss128m"]
     if dfs:
         cmd.append("-Dtlc2.tool.queue.IStateQueue=StateDeque")
     cmd += ["-cp", TLA_CP, "tlc2.TLC", "-metadir", meta, "-noGenerateSpecTE"]
